@@ -102,7 +102,9 @@ def battery(seed):
         go('simple/SIRS/%s/directed/plain' % kind, lambda: canon(EoN.Gillespie_simple_contagion(DG, H, J, dict(IC), ('Sus', 'Inf', 'Rec'), tmax=4)))
         def simple_dfull():
             inv = EoN.Gillespie_simple_contagion(DG, H, J, dict(IC), ('Sus', 'Inf', 'Rec'), tmax=4, return_full_data=True)
-            return {'hist': {repr(u): canon(inv.node_history(u)) for u in DG.nodes()},
+            t, D = inv.summary()
+            return {'t': canon(t), 'Sus': canon(D['Sus']), 'Inf': canon(D['Inf']), 'Rec': canon(D['Rec']),
+                    'hist': {repr(u): canon(inv.node_history(u)) for u in DG.nodes()},
                     'trans': canon([(a, repr(b), repr(c)) for a, b, c in inv.transmissions()])}
         go('simple/SIRS/%s/directed/full' % kind, simple_dfull)
         H2 = nx.DiGraph(); H2.add_edge('E', 'I', rate=0.6, weight_label='rw'); H2.add_edge('I', 'R', rate=1.0)
